@@ -73,6 +73,15 @@ def _sched(monitor_for, quick=(150, 3), thorough=(2500, 6), extra=None, **genkw)
         o.violations.extend(res["violations"])
         o.monitor_stats["impl_traces_monitored"] = res["traces"]
         o.monitor_stats["impl_monitor_violations"] = len(res["violations"])
+        if not genkw:
+            # structured families every scheduler property is exercised on besides the random scenarios
+            n_mix, n_ms = (25, 2) if o.tier == "quick" else (600, 4)
+            scs = [g(rng) for _ in range(n_mix) for g in (scorr.gen_fanin_scenario, scorr.gen_diamond_scenario)]
+            res2 = scorr.run_sched_suite(driver, rng, len(scs), n_ms, name="families", monitor=monitor_for, scenarios=scs)
+            o.suites.append(res2)
+            o.violations.extend(res2["violations"])
+            o.monitor_stats["family_traces_monitored"] = res2["traces"]
+            o.monitor_stats["impl_monitor_violations"] += len(res2["violations"])
         if extra:
             extra(o, driver, rng)
     return run
